@@ -157,16 +157,34 @@ def template_rule(ctx, crate):
 
 
 def glue_rule(ctx, crate):
+    r = explore_after_close(ctx, crate, "R10-9", None)
+    if r is None:
+        return
+    b, found, n_delim = r
+    ok = found["glued"] == 0 or found["delimited"] > 0
+    ctx.ob("R10-9", b.path, "text glued after a closing double quote: a trailing `$NAME` of the token is delimited on that path "
+                            "(%d glue path(s), %d through a delimiting call, %d call(s) of that kind)" %
+           (found["glued"], found["delimited"], n_delim), ok,
+           key="R10-9|%s|glue-after-quote|name-delimited" % b.path, crate=crate.kind,
+           detail=None if ok else "`\"$A\"x` is tokenized to the text `$Ax` under the double-quote tag: the expansion reads the "
+           "variable Ax (usually unset) - the adjacent text is lost instead of preserved")
+
+
+def explore_after_close(ctx, crate, rule, X):
+    """one iteration of parse_line's character loop, started in the `quote just closed` state under the double-quote
+    tag, reading character X (None: a character that equals none of the constants the loop compares with).
+    Returns (body, {"glued": paths that append the character without ending the word, "delimited": those of them
+    that pass a delimiting call, "ended": paths that end the word}, number of delimiting calls)"""
     from .c01 import TokenizerModel, _is_tag_var
     from .c02 import dom_facts
     from ..mir import FactWalker, const_char, const_str, last_seg, strip_sites, render
     from ..etag import norm_guard
     b = crate.fn("parsers::parser_line::parse_line")
-    if not ctx.require(b is not None, "R10-9", "R10-9|anchor", "parsers::parser_line::parse_line not found"):
-        return
+    if not ctx.require(b is not None, rule, "%s|anchor" % rule, "parsers::parser_line::parse_line not found"):
+        return None
     M = TokenizerModel(b)
-    if not ctx.require(M.ok, "R10-9", "R10-9|%s|model" % b.path, M.why or "tokenizer loop not recognised", b.path):
-        return
+    if not ctx.require(M.ok, rule, "%s|%s|model" % (rule, b.path), M.why or "tokenizer loop not recognised", b.path):
+        return None
     blocks, cexpr = M.blocks, M.cexpr
     # the `quote just closed` flag: a bool set under `tag == current character`
     closed = None
@@ -180,9 +198,9 @@ def glue_rule(ctx, crate):
                         any(sub == cexpr for sub in mir.subexprs(a2)) and \
                         any(sub[0] == "var" and _is_tag_var(b, sub[1]) for sub in mir.subexprs(a2)):
                     closed = ("var", st["place"]["l"], b.names.get(st["place"]["l"]))
-    if not ctx.require(closed is not None, "R10-9", "R10-9|%s|closed-flag" % b.path,
+    if not ctx.require(closed is not None, rule, "%s|%s|closed-flag" % (rule, b.path),
                        "the `quote just closed` state of the tokenizer was not identified", b.path):
-        return
+        return None
     token_vars = set(M.pushes_c.values())
     ends = {bb for bb, t, c in b.calls() if bb in blocks and last_seg(c) == "push" and "Vec" in c}
     # delimiting calls: the token is handed to something that carries a `$` pattern (directly, or a local helper does)
@@ -211,7 +229,7 @@ def glue_rule(ctx, crate):
             delim.add(bb)
     w = FactWalker(b, lambda a: True, cut_back_edges=False)
     named_bools = [("var", l, b.names.get(l)) for l in b.names if b.locals[l]["ty"] == "bool"]
-    found = {"glued": 0, "delimited": 0}
+    found = {"glued": 0, "delimited": 0, "ended": 0}
 
     def step(bb, st):
         facts, delimited, pushed, ended = st
@@ -230,10 +248,13 @@ def glue_rule(ctx, crate):
                     found["glued"] += 1
                     if delimited:
                         found["delimited"] += 1
+                if ended:
+                    found["ended"] += 1
                 continue
             if atom is not None:
                 if atom[0] == "bin" and atom[1] in ("Eq", "Ne") and atom[2] == cexpr and const_char(atom[3]) is not None:
-                    if (atom[1] == "Ne") != val:      # the character read is none of the constants
+                    same = (X is not None and const_char(atom[3]) == X)
+                    if ((atom[1] == "Eq") == same) != val:      # the character read is X (or none of the constants)
                         continue
                 g = norm_guard(atom, val)
                 if g is not None and g[0] == "is_empty" and g[1][0] == "var" and _is_tag_var(b, g[1][1]) and g[2] is True:
@@ -253,10 +274,4 @@ def glue_rule(ctx, crate):
     init = frozenset({(v, v == closed) for v in named_bools})
     seen = mir.explore(b, M.some_t[0], (init, False, False, False), step, limit=400000)
     ctx.paths_enumerated += len(seen)
-    ok = found["glued"] == 0 or found["delimited"] > 0
-    ctx.ob("R10-9", b.path, "text glued after a closing double quote: a trailing `$NAME` of the token is delimited on that path "
-                            "(%d glue path(s), %d through a delimiting call, %d call(s) of that kind)" %
-           (found["glued"], found["delimited"], len(delim)), ok,
-           key="R10-9|%s|glue-after-quote|name-delimited" % b.path, crate=crate.kind,
-           detail=None if ok else "`\"$A\"x` is tokenized to the text `$Ax` under the double-quote tag: the expansion reads the "
-           "variable Ax (usually unset) - the adjacent text is lost instead of preserved")
+    return b, found, len(delim)
